@@ -5,8 +5,13 @@ PROP = dict(
     lean_modules=["Comdex.Props.C04"],
     namespaces=["Comdex.C04"],
     required_theorems=["Comdex.C04.escrow_ge_requests", "Comdex.C04.escrow_eq_requests", "Comdex.C04.pair_escrow_exact",
-                       "Comdex.C04.pair_escrow_ge_orders", "Comdex.C04.pair_escrow_ge_orders_counterexample",
-                       "Comdex.C04.farm_custody_exact", "Comdex.C04.zero_supply_disabled",
+                       "Comdex.C04.pair_escrow_ge_orders", "Comdex.C04.pair_escrow_ge_orders_offset", "Comdex.C04.pair_escrow_ge_orders_modelled",
+                       "Comdex.C04.modelled_match_quote_exact", "Comdex.C04.modelled_match_base_offset", "Comdex.C04.modelled_match_deficit",
+                       "Comdex.C04.d2_offset_witness", "Comdex.C04.pair_escrow_ge_orders_counterexample",
+                       "Comdex.C04.coins_conserved", "Comdex.C04.bank_keys_unique", "Comdex.C04.batch_conserves_coins",
+                       "Comdex.C04.batch_dust_exact", "Comdex.C04.batch_reserve_exact", "Comdex.C04.farm_custody_exact", "Comdex.C04.unfarm_newest_first", "Comdex.C04.maturation_exact",
+                       "Comdex.C04.no_mature_entry_after_batch", "Comdex.C04.deposit_refunded_if_pool_disabled",
+                       "Comdex.C04.withdraw_refunded_if_pool_disabled", "Comdex.C04.zero_supply_disabled",
                        "Comdex.C04.poolcoin_supply_only_by_pool_ops"],
     harness_tests=["TestC04"],
     trusted_base=[KERNEL_TB, HARNESS_TB,
@@ -21,8 +26,10 @@ PROP = dict(
                   "vesting accounts, no unsolicited MsgSend to module-owned addresses (app.go builds the bank keeper without blocked "
                   "addresses, so a plain MsgSend of pool coins to the liquidity module account would make custody exceed the records)"],
     assumptions=["per-app generic params are fixed over a history; MinInitialPoolCoinSupply > 0 (validateMinInitialPoolCoinSupply)",
-                 "pair_escrow_ge_orders: every observed match result hands out no more than it took in, per side (the conservation "
-                 "law of C05); without it the model reproduces the shortfall (pair_escrow_ge_orders_counterexample, D2)",
+                 "pair_escrow_ge_orders_offset has no premise (explicit offset lostOf); pair_escrow_ge_orders_modelled is for match "
+                 "results that are lossless runs of C05's modelled matcher with non-negative quoteCoinDiff (conservation proved via "
+                 "Lemmas/LiqAmmBridge.lean from C05's matchBook_account); pair_escrow_ge_orders keeps the MatchConserving form; the "
+                 "real fills are compared with the ledger, C05's own harness ties its matcher model to the real matcher",
                  "the swap-fee conversion hook of BeginBlocker (every 150th block) is not exercised: heights stay below 150",
                  "block times are whole seconds"],
     rule="each case is one generated history on a fresh app (apps 1-3 with different fee rates / batch sizes, 1-4 pairs per app, basic "
@@ -37,9 +44,13 @@ META = dict(
     text="Kernel-checked for every finite history of liquidity messages and block hooks from any genesis: the global escrow holds "
          "exactly the coins of pending deposit / withdrawal requests; each pair escrow holds exactly the remaining offer coins and fee "
          "reserves of its live orders plus the net of what matching took in and handed out, hence at least the remaining offer coins "
-         "whenever the observed match results conserve coins (and a concrete counterexample when they do not, D2); the module "
+         "up to an explicit offset (what the pair's match results handed out beyond what they took in; 0 for lossless runs of "
+         "C05's modelled matcher, exactly the dropped remainder for D2); no ordinary coin is minted or burnt by any message or "
+         "hook, the dust collector and pool reserves move by exactly the named amounts in a batch; the module "
          "account holds exactly the farmed pool coins (queued + active); zero supply implies disabled; the recorded pool-coin supply "
-         "is changed only by pool creation, the app's batch execution and deposit-and-farm / unfarm-and-withdraw on that pool. The "
+         "is changed only by pool creation, the app's batch execution and deposit-and-farm / unfarm-and-withdraw on that pool; "
+         "unfarm takes from the newest queue entries first, maturation moves exactly the mature entries, requests executed "
+         "against a disabled pool are refunded in full. The "
          "model is tied to the code by replaying generated histories on the real app and comparing outcome and full state after "
          "every message and block; the monitors and the repository's own AllInvariants are evaluated on the real state.",
     note="Trusted: Lean kernel, the model's faithfulness as far as the correspondence run exercises it, fixed params. Matching and "
